@@ -219,7 +219,10 @@ pub fn parse_statement(
         // Build a synthetic slice: the first entry uses gather_content as its content, then
         // the remaining (not-yet-consumed) lines follow.  We track how many lines the
         // sub-parser consumed and advance the outer line_index accordingly.
-        if looks_like_conditional(gather_content) || looks_like_sequence(gather_content) {
+        // (an inline conditional `- {cond: a|b} text` closes its brace on the line: content)
+        if (looks_like_conditional(gather_content) && brace_spans_multiple_lines(gather_content))
+            || looks_like_sequence(gather_content)
+        {
             // Synthetic opening line using gather_content.
             let synthetic = Line {
                 content: gather_content,
